@@ -75,7 +75,7 @@ func checkC19(c *Ctx) {
 			return
 		}
 		for _, cl := range Calls(f) {
-			if IsCallTo(cl, "(*go.uber.org/zap.sinkRegistry).newSink") {
+			if isNewSink(cl) {
 				open = f
 			}
 		}
@@ -206,7 +206,7 @@ func checkC19(c *Ctx) {
 		})
 		var newSink *ssa.Call
 		for _, cl := range Calls(open) {
-			if IsCallTo(cl, "(*go.uber.org/zap.sinkRegistry).newSink") {
+			if isNewSink(cl) {
 				newSink, _ = cl.(*ssa.Call)
 			}
 		}
@@ -335,7 +335,7 @@ func checkC19(c *Ctx) {
 				Event: func(in ssa.Instruction, st *ConcState) string {
 					switch x := in.(type) {
 					case *ssa.Call:
-						if x == newSink || IsCallTo(x, "(*go.uber.org/zap.sinkRegistry).newSink") {
+						if x == newSink || isNewSink(x) {
 							return "open"
 						}
 						if sc := StaticCallee(x); sc != nil && closeAll[sc] {
@@ -405,7 +405,7 @@ func checkC19(c *Ctx) {
 						v = nx
 					}
 					if ex != nil && ex.Index == 1 {
-						if cl, ok := ex.Tuple.(*ssa.Call); ok && IsCallTo(cl, "(*go.uber.org/zap.sinkRegistry).newSink") {
+						if cl, ok := ex.Tuple.(*ssa.Call); ok && isNewSink(cl) {
 							if pol == (bo.Op == token.NEQ) {
 								return "fail"
 							}
@@ -461,7 +461,7 @@ func checkC19(c *Ctx) {
 				okc := ok && ex.Index == 1
 				if okc {
 					cc, _ := ex.Tuple.(*ssa.Call)
-					okc = cc != nil && cc.Call.StaticCallee() == open
+					okc = cc != nil && (cc.Call.StaticCallee() == open || relaysAllResultsOf(cc.Call.StaticCallee(), open))
 				}
 				c.Check(okc, "R19.1", FStr(Open), "returns-closer#"+itoa(k+1), r.Pos(), "success return hands the caller open's closer unchanged (%s)", Desc(rv[1]))
 			}
@@ -1484,4 +1484,79 @@ func closerSeesInner(st *ConcState, mk *ssa.MakeClosure, listDepth func(*ConcSta
 		}
 	}
 	return "?"
+}
+
+// isNewSink: the call opens one destination through the sink registry: sinkRegistry.newSink itself, or a call through a
+// function parameter that every call site binds to that method (open(paths, _sinkRegistry.newSink)).
+// relaysAllResultsOf: h does nothing but call target and return what it returned.
+func relaysAllResultsOf(h, target *ssa.Function) bool {
+	if h == nil || target == nil || len(h.Blocks) != 1 {
+		return false
+	}
+	rets := Returns(h)
+	if len(rets) != 1 {
+		return false
+	}
+	var call *ssa.Call
+	for i, v := range rets[0].Results {
+		ex, ok := v.(*ssa.Extract)
+		if !ok || ex.Index != i {
+			return false
+		}
+		cl, ok := ex.Tuple.(*ssa.Call)
+		if !ok || cl.Call.StaticCallee() != target || call != nil && call != cl {
+			return false
+		}
+		call = cl
+	}
+	return call != nil
+}
+
+func isNewSink(cl ssa.CallInstruction) bool {
+	if IsCallTo(cl, "(*go.uber.org/zap.sinkRegistry).newSink") {
+		// (not the call inside the bound-method wrapper: that one is counted where the wrapper is called)
+		return !strings.HasSuffix(cl.Parent().Name(), "$bound")
+	}
+	cc := cl.Common()
+	if cc.IsInvoke() || cc.StaticCallee() != nil {
+		return false
+	}
+	p, ok := cc.Value.(*ssa.Parameter)
+	if !ok || p.Parent() == nil {
+		return false
+	}
+	h := p.Parent()
+	idx := -1
+	for i, q := range h.Params {
+		if q == p {
+			idx = i
+		}
+	}
+	sites := sitesOf(h)
+	if idx < 0 || len(sites) == 0 {
+		return false
+	}
+	for _, site := range sites {
+		a := Args(site)
+		if idx >= len(a) {
+			return false
+		}
+		mk, isMk := Strip(a[idx]).(*ssa.MakeClosure)
+		if !isMk {
+			return false
+		}
+		bound, _ := mk.Fn.(*ssa.Function)
+		okB := false
+		if bound != nil && strings.HasSuffix(bound.Name(), "$bound") {
+			for _, bc := range Calls(bound) {
+				if IsCallTo(bc, "(*go.uber.org/zap.sinkRegistry).newSink") {
+					okB = true
+				}
+			}
+		}
+		if !okB {
+			return false
+		}
+	}
+	return true
 }
